@@ -5,7 +5,10 @@ over the processors of head, tail, scroll-from, dedup, fillnull, rename, fields)
 
 Every `chunk_invariant_*` theorem quantifies over EVERY list of batches `parts` (any table, any partition,
 empty batches included): what the final consumer receives equals the documented meaning `sem` applied to
-the concatenated input.  `h` is the hash of a single value (xxhash in the code) and is arbitrary.
+the concatenated input.  The model mirrors the code AFTER the C06 repairs (dedup key = digest of the sequence of
+field hashes, dedup columns read with backfill, tail hands out a copy of its result).  `kf` is the key of a
+tuple of field values; in the code `digestKey h combine` with `h` the hash of a single value and `combine`
+the digest of the sequence of hashes (both xxhash) — parameters.
 -/
 import SigModel.Model.Pipe
 import SigModel.Lemmas.C06
@@ -106,161 +109,89 @@ theorem chain_invariant (ss : List Stage) : ∀ (parts : List Table),
 commands) is `runBatches` for one DataProcessor over the replayed source … -/
 theorem read_single {σ : Type} (p : Proc σ) (parts : List Table) (n : Nat) :
     (Chain.read (n + 2) (.dp (.src parts) p p.init false)).2 = runBatches p parts := by
-  simp only [Chain.read, runBatches, Chain.rewind, Chain.writeBack]
+  simp only [Chain.read, runBatches, Chain.rewind]
   cases p.twoPass <;> simp
 
 /-- … and `runBatches` of `runBatches` for a single-pass command on top of any command. -/
 theorem read_pair {σ τ : Type} (p : Proc σ) (q : Proc τ) (hq : q.twoPass = false) (parts : List Table) (n : Nat) :
     (Chain.read (n + 3) (.dp (.dp (.src parts) p p.init false) q q.init false)).2 = runBatches q (runBatches p parts) := by
   have h1 := read_single p parts n
-  simp only [Chain.read, Chain.writeBack, Chain.rewind, runBatches, hq, Bool.false_and, Bool.false_eq_true, ↓reduceIte, Bool.or_false] at h1 ⊢
+  simp only [Chain.read, Chain.rewind, runBatches, hq, Bool.false_and, Bool.false_eq_true, ↓reduceIte, Bool.or_false] at h1 ⊢
   cases hp : p.twoPass <;> simp [hp] at h1 ⊢
 
 /-! ### dedup -/
 
-/-- guard: every non-empty batch carries every dedup field as a column (Bool, decidable) -/
-def colsOK (fs : List String) (parts : List Table) : Bool :=
-  parts.all (fun b => b.isEmpty || fs.all (hasCol b))
-
-/-- What the CODE computes, for every hash function, every option set (limit, consecutive, keepempty,
-keepevents) and every partition whose batches carry the dedup columns: dedup of the whole stream under
-the key "XOR of the per-field hashes".  The seen-map survives batch boundaries exactly. -/
-theorem chunk_invariant_dedup_code (h : Val → Nat) (o : DedupOpts) (parts : List Table)
-    (hf : o.fields ≠ []) (hc : colsOK o.fields parts = true) :
-    runBatched (dedupProc h o) parts = dedupSpec (rowKey (xorKey h) o.fields) o parts.flatten := by
-  obtain ⟨f0, fs, hfs⟩ : ∃ f0 fs, o.fields = f0 :: fs := by
-    cases hfl : o.fields with
-    | nil => exact absurd hfl hf
-    | cons a l => exact ⟨a, l, rfl⟩
-  have hok : firstColOK f0 parts := by
-    intro b hb hne
-    have := (List.all_eq_true.mp hc) b hb
-    rw [hne, Bool.false_or, hfs] at this
-    exact (List.all_eq_true.mp this) f0 List.mem_cons_self
-  show (if (dedupProc h o).twoPass then _ else
-      (pass (dedupProc h o) (!(dedupProc h o).bottleneck) (dedupProc h o).init parts).2).flatten = _
-  rw [show (dedupProc h o).twoPass = false from rfl, show (dedupProc h o).bottleneck = false from rfl,
-    show (dedupProc h o).init = [] from rfl]
+/-- What the CODE computes, for EVERY key function on value tuples, every option set (limit, consecutive,
+keepempty, keepevents) and every partition — whatever columns the batches carry (an absent column reads
+as nulls): dedup of the whole stream under that key.  The seen-map survives batch boundaries exactly. -/
+theorem chunk_invariant_dedup_code (kf : List Val → Nat) (o : DedupOpts) (parts : List Table)
+    (hf : o.fields ≠ []) :
+    runBatched (dedupProc kf o) parts = dedupSpec (rowKey kf o.fields) o parts.flatten := by
+  show (if (dedupProc kf o).twoPass then _ else
+      (pass (dedupProc kf o) (!(dedupProc kf o).bottleneck) (dedupProc kf o).init parts).2).flatten = _
+  rw [show (dedupProc kf o).twoPass = false from rfl, show (dedupProc kf o).bottleneck = false from rfl,
+    show (dedupProc kf o).init = [] from rfl]
   simp only [Bool.false_eq_true, ↓reduceIte, Bool.not_false]
-  rw [dedup_pass h o f0 fs hfs parts [] hok, dedupRows_spec h o parts.flatten [] [] (rel_init _)]
+  rw [dedup_pass kf o hf parts [], dedupRows_spec kf o parts.flatten [] [] (rel_init _)]
   rfl
 
-/-- FULL STATEMENT one would like about the key: rows with different value tuples get different keys
-(granting that the single-value hash is collision-free on the values involved). -/
-def KeyInjective (h : Val → Nat) : Prop :=
-  ∀ vs ws : List Val, vs.length = ws.length →
-    (∀ v w, v ∈ vs ++ ws → w ∈ vs ++ ws → h v = h w → v = w) →
-    xorKey h vs = xorKey h ws → vs = ws
+/-- assumption on the single-value hash: no collisions -/
+def HashInjective (h : Val → Nat) : Prop := ∀ v w, h v = h w → v = w
+/-- assumption on the digest: no collisions between hash sequences of the same length (the digest input is
+the concatenation of fixed-width 8-byte hashes of the same number of fields) -/
+def DigestInjective (combine : List Nat → Nat) : Prop :=
+  ∀ a b : List Nat, a.length = b.length → combine a = combine b → a = b
 
-/-- The combination is commutative: for EVERY hash function (1,2) and (2,1) get the same key … -/
-theorem dedup_key_counterexample (h : Val → Nat) :
-    xorKey h [.int 1, .int 2] = xorKey h [.int 2, .int 1] := xorKey_swap h _ _
+/-- FULL STATEMENT about the key: tuples of the same length with different values get different keys —
+modulo exactly the two collision-freeness assumptions above. -/
+theorem dedup_key_injective (h : Val → Nat) (combine : List Nat → Nat)
+    (hinj : HashInjective h) (cinj : DigestInjective combine) (vs ws : List Val)
+    (hl : vs.length = ws.length) (e : digestKey h combine vs = digestKey h combine ws) : vs = ws := by
+  unfold digestKey at e
+  exact map_injective_of_injective h hinj vs ws (cinj _ _ (by simp [hl]) e)
 
-/-- … and every pair of equal values gets key 0: (1,1) and (2,2) collide as well. -/
-theorem dedup_key_counterexample_cancel (h : Val → Nat) :
-    xorKey h [.int 1, .int 1] = xorKey h [.int 2, .int 2] := by
-  rw [xorKey_pair_self, xorKey_pair_self]
-
-/-- so the full statement is FALSE for every hash that tells 1 from 2 -/
-theorem dedup_key_not_injective (h : Val → Nat) (h12 : h (.int 1) ≠ h (.int 2)) : ¬ KeyInjective h := by
-  intro hinj
-  have := hinj [.int 1, .int 2] [.int 2, .int 1] rfl (by
-    intro v w hv hw e
-    simp at hv hw
-    rcases hv with rfl | rfl | rfl | rfl <;> rcases hw with rfl | rfl | rfl | rfl <;>
-      first | rfl | exact absurd e h12 | exact absurd e.symm h12) (dedup_key_counterexample h)
-  simp at this
-
-/-- partial: with a single field the key is the hash of the value, injective when the hash is -/
-theorem dedup_key_injective_single (h : Val → Nat) (hinj : ∀ v w, h v = h w → v = w) (v w : Val)
-    (e : xorKey h [v] = xorKey h [w]) : v = w := by
-  rw [xorKey_single, xorKey_single] at e; exact hinj v w e
-
-/-- guard: on the rows of this table the XOR key separates what the value tuples separate (Bool) -/
-def keyFaithful (h : Val → Nat) (fs : List String) (t : Table) : Bool :=
-  t.all (fun r => t.all (fun r' =>
-    match rowKey (fun vs => vs) fs r, rowKey (fun vs => vs) fs r' with
-    | some vs, some ws => xorKey h vs != xorKey h ws || vs == ws
-    | _, _ => true))
-
-/-- PARTIAL: under the column guard and the key guard the code's dedup IS the documented dedup (key = the
-tuple of field values) of the whole stream, for every partition. -/
-theorem chunk_invariant_dedup_partial (h : Val → Nat) (o : DedupOpts) (parts : List Table)
-    (hf : o.fields ≠ []) (hc : colsOK o.fields parts = true)
-    (hk : keyFaithful h o.fields parts.flatten = true) :
-    runBatched (dedupProc h o) parts = sem (.dedup o) parts.flatten := by
-  rw [chunk_invariant_dedup_code h o parts hf hc]
+/-- C06 for dedup at full strength: for every partition, every column layout of the batches and every
+option set, the code's dedup is the documented dedup (key = the TUPLE of field values) of the whole
+stream.  Residual assumptions: the two hashes are collision-free. -/
+theorem chunk_invariant_dedup (h : Val → Nat) (combine : List Nat → Nat)
+    (hinj : HashInjective h) (cinj : DigestInjective combine) (o : DedupOpts) (parts : List Table)
+    (hf : o.fields ≠ []) :
+    runBatched (dedupProc (digestKey h combine) o) parts = sem (.dedup o) parts.flatten := by
+  rw [chunk_invariant_dedup_code _ o parts hf]
   simp only [sem, dedupSpec]
-  have hkey : (rowKey (xorKey h) o.fields) = fun r => (rowKey (fun vs => vs) o.fields r).map (xorKey h) := by
+  have hkey : (rowKey (digestKey h combine) o.fields)
+      = fun r => (rowKey (fun vs => vs) o.fields r).map (digestKey h combine) := by
     funext r; exact rowKey_map _ _ _
   rw [hkey]
-  have := spec_congr (xorKey h) (rowKey (fun vs => vs) o.fields) o parts.flatten [] (by
+  have := spec_congr (digestKey h combine) (rowKey (fun vs => vs) o.fields) o parts.flatten [] (by
     intro x y hx hy e
-    rcases hx with hx | ⟨r, hr, hx⟩
+    rcases hx with hx | ⟨r, _, hx⟩
     · exact absurd hx (by simp)
-    rcases hy with hy | ⟨r', hr', hy⟩
+    rcases hy with hy | ⟨r', _, hy⟩
     · exact absurd hy (by simp)
-    have h1 := (List.all_eq_true.mp ((List.all_eq_true.mp hk) r hr)) r' hr'
-    rw [hx, hy] at h1
-    simp only [Bool.or_eq_true, bne_iff_ne, ne_eq, beq_iff_eq] at h1
-    rcases h1 with h1 | h1
-    · exact absurd e h1
-    · exact h1)
+    exact dedup_key_injective h combine hinj cinj x y
+      (by rw [rowKey_length _ _ _ hx, rowKey_length _ _ _ hy]) e)
   simpa using this
 
-/-- the key guard holds for every single-field dedup when the hash is collision-free -/
-theorem dedup_single_field_faithful (h : Val → Nat) (hinj : ∀ v w, h v = h w → v = w) (f : String) (t : Table) :
-    keyFaithful h [f] t = true := by
-  unfold keyFaithful
-  refine List.all_eq_true.mpr (fun r _ => List.all_eq_true.mpr (fun r' _ => ?_))
-  cases h1 : rowKey (fun vs => vs) [f] r with
-  | none => rfl
-  | some vs =>
-    cases h2 : rowKey (fun vs => vs) [f] r' with
-    | none => rfl
-    | some ws =>
-      simp only [Bool.or_eq_true, bne_iff_ne, ne_eq, beq_iff_eq]
-      have e1 : vs = [r.get f] := by
-        simp only [rowKey, List.map_cons, List.map_nil] at h1
-        split at h1 <;> simp_all
-      have e2 : ws = [r'.get f] := by
-        simp only [rowKey, List.map_cons, List.map_nil] at h2
-        split at h2 <;> simp_all
-      subst e1 e2
-      by_cases e : xorKey h [r.get f] = xorKey h [r'.get f]
-      · right; rw [dedup_key_injective_single h hinj _ _ e]
-      · left; exact e
+/-- The code BEFORE the repair combined the field hashes with XOR: for EVERY hash (1,2) and (2,1) collide … -/
+theorem dedup_key_counterexample_old (h : Val → Nat) :
+    xorKeyOld h [.int 1, .int 2] = xorKeyOld h [.int 2, .int 1] := xorKeyOld_swap h _ _
 
-theorem chunk_invariant_dedup_single_field (h : Val → Nat) (hinj : ∀ v w, h v = h w → v = w)
-    (o : DedupOpts) (f : String) (hf : o.fields = [f]) (parts : List Table) (hc : colsOK o.fields parts = true) :
-    runBatched (dedupProc h o) parts = sem (.dedup o) parts.flatten :=
-  chunk_invariant_dedup_partial h o parts (by simp [hf]) hc (by rw [hf]; exact dedup_single_field_faithful h hinj f _)
+/-- … and so do (1,1) and (2,2) (every pair of equal values has key 0). -/
+theorem dedup_key_counterexample_cancel_old (h : Val → Nat) :
+    xorKeyOld h [.int 1, .int 1] = xorKeyOld h [.int 2, .int 2] := by
+  rw [xorKeyOld_pair_self, xorKeyOld_pair_self]
 
-/-- COUNTEREXAMPLE to the full statement "dedup a b means dedup on the pair (a, b)": for EVERY hash function
-the rows (a=1,b=2), (a=2,b=1) in one dense batch come out as one row. -/
-theorem chunk_invariant_dedup_counterexample (h : Val → Nat) :
-    ¬ (∀ (o : DedupOpts) (parts : List Table), o.fields ≠ [] → colsOK o.fields parts = true →
-        runBatched (dedupProc h o) parts = sem (.dedup o) parts.flatten) := by
-  intro hall
-  have := hall { fields := ["a", "b"] }
-    [[[("a", .int 1), ("b", .int 2)], [("a", .int 2), ("b", .int 1)]]] (by simp) (by simp [colsOK, hasCol, Row.hasKey])
-  rw [chunk_invariant_dedup_code h _ _ (by simp) (by simp [colsOK, hasCol, Row.hasKey])] at this
-  have hl := congrArg List.length this
-  simp [sem, dedupSpec, dedupSpecFrom, rowKey, Row.get, List.lookup_cons, Val.isNull, emitRow, xorKey, Nat.xor_comm] at hl
-
-/-- COUNTEREXAMPLE, column missing in one batch: the same two rows, delivered as one batch or as two,
-give different outputs — for every hash function (the second row has no `a`; alone in a batch that has no
-column `a` it passes, next to a row that has `a` it is dropped). -/
-theorem dedup_missing_column_counterexample (h : Val → Nat) :
-    ∃ (o : DedupOpts) (parts1 parts2 : List Table), o.fields ≠ [] ∧ parts1.flatten = parts2.flatten ∧
-      runBatched (dedupProc h o) parts1 ≠ runBatched (dedupProc h o) parts2 := by
-  refine ⟨{ fields := ["a"] }, [[[("a", .int 1), ("b", .int 1)], [("b", .int 2)]]],
-    [[[("a", .int 1), ("b", .int 1)]], [[("b", .int 2)]]], by simp, by simp, ?_⟩
+/-- with that key the code's dedup is NOT the documented one (same theorem `chunk_invariant_dedup_code`,
+instantiated with the old key): (a=1,b=2), (a=2,b=1) come out as one row, for every hash. -/
+theorem chunk_invariant_dedup_counterexample_old (h : Val → Nat) :
+    runBatched (dedupProc (xorKeyOld h) { fields := ["a", "b"] })
+        [[[("a", .int 1), ("b", .int 2)], [("a", .int 2), ("b", .int 1)]]]
+      ≠ sem (.dedup { fields := ["a", "b"] }) [[("a", .int 1), ("b", .int 2)], [("a", .int 2), ("b", .int 1)]] := by
+  rw [chunk_invariant_dedup_code _ _ _ (by simp)]
   intro e
   have hl := congrArg List.length e
-  simp [runBatched, runBatches, dedupProc, pass, otl, hasCol, Row.hasKey, dedupRows, dedupRow, rowKey, Row.get,
-    List.lookup_cons, Val.isNull, emitRow, seenBump, seenSet] at hl
-
+  simp [sem, dedupSpec, dedupSpecFrom, rowKey, Row.get, List.lookup_cons, Val.isNull, emitRow, xorKeyOld, Nat.xor_comm] at hl
 
 /-! ### a two-pass command on top of a stateful command (the upstream is rewound and read again) -/
 
@@ -274,15 +205,16 @@ theorem rereadable_head (n : Nat) (parts : List Table) : RereadableOn (headProc 
   simpa [RereadableOn, runBatched, runBatches, headProc] using this
 
 /-- `dedup`'s Rewind drops the seen-map -/
-theorem rereadable_dedup (h : Val → Nat) (o : DedupOpts) (parts : List Table) (hf : o.fields ≠ [])
-    (hc : colsOK o.fields parts = true) (hk : keyFaithful h o.fields parts.flatten = true) :
-    RereadableOn (dedupProc h o) (sem (.dedup o)) parts := by
-  have := chunk_invariant_dedup_partial h o parts hf hc hk
+theorem rereadable_dedup (h : Val → Nat) (combine : List Nat → Nat)
+    (hinj : HashInjective h) (cinj : DigestInjective combine) (o : DedupOpts) (parts : List Table)
+    (hf : o.fields ≠ []) :
+    RereadableOn (dedupProc (digestKey h combine) o) (sem (.dedup o)) parts := by
+  have := chunk_invariant_dedup h combine hinj cinj o parts hf
   unfold RereadableOn
-  rw [show (dedupProc h o).rewind _ = (dedupProc h o).init from rfl]
+  rw [show (dedupProc (digestKey h combine) o).rewind _ = (dedupProc (digestKey h combine) o).init from rfl]
   simpa [runBatched, runBatches, dedupProc] using this
 
-/-- `tail` does not rewind anything: it answers with the final result it already has -/
+/-- `tail` does not rewind anything: it answers with (a copy of) the final result it already has -/
 theorem rereadable_tail (n : Nat) (parts : List Table) : RereadableOn (tailProc n) (sem (.tail n)) parts := by
   have := chunk_invariant_tail n parts
   unfold RereadableOn
@@ -299,27 +231,15 @@ theorem rereadable_rowwise (f : Table → Table) (h0 : f [] = []) (happ : ∀ a 
   rw [show (rowwiseProc f).rewind _ = (rowwiseProc f).init from rfl]
   simpa [runBatched, runBatches, rowwiseProc] using this
 
-/-- tail keeps a reference to the result it emitted; with nothing in between that is what it already has -/
-theorem retain_tail_noop (n : Nat) (parts : List Table) :
-    (tailProc n).retain (pass (tailProc n) false (tailProc n).init parts).1 (pass (tailProc n) false (tailProc n).init parts).2
-      = (pass (tailProc n) false (tailProc n).init parts).1 := by
-  obtain ⟨g, hg⟩ := tail_pass_state n parts none
-  rw [show (tailProc n).init = { fin := none, eof := false } from rfl, hg]
-  cases g <;> simp [tailProc, otl]
-
 /-- The two-pass `fillnull` on top of any single-pass command that is chunk-invariant and re-readable:
 first read, Rewind of the whole chain, second read — the chain means fillnull of the upstream's meaning,
-for every partition of the source.  (`Chain.read` is what the Oracle runs; `hret`: see `Proc.retain` —
-holds by `rfl` for every processor but tail, and for tail by `retain_tail_noop`.) -/
+for every partition of the source.  (`Chain.read` is what the Oracle runs.) -/
 theorem two_pass_over {σ : Type} (p : Proc σ) (hp2 : p.twoPass = false) (f : Table → Table) (parts : List Table)
-    (n : Nat) (v : String) (h1 : runBatched p parts = f parts.flatten) (h2 : RereadableOn p f parts)
-    (hret : p.retain (pass p (!p.bottleneck) p.init parts).1 (pass p (!p.bottleneck) p.init parts).2
-              = (pass p (!p.bottleneck) p.init parts).1) :
+    (n : Nat) (v : String) (h1 : runBatched p parts = f parts.flatten) (h2 : RereadableOn p f parts) :
     ((Chain.read (n + 3) (.dp (.dp (.src parts) p p.init false) (fillAllProc v) (fillAllProc v).init false)).2).flatten
       = sem (.fillnull v []) (f parts.flatten) := by
-  simp only [Chain.read, Chain.rewind, Chain.writeBack, hp2, show (fillAllProc v).twoPass = true from rfl,
+  simp only [Chain.read, Chain.rewind, hp2, show (fillAllProc v).twoPass = true from rfl,
     Bool.false_and, Bool.or_false, Bool.not_false, Bool.and_true, Bool.false_eq_true, ↓reduceIte]
-  rw [hret]
   have hx1 : ((pass p (!p.bottleneck) p.init parts).2).flatten = f parts.flatten := by
     simpa [runBatched, runBatches, hp2] using h1
   have := two_pass_fillnull_all v (pass p (!p.bottleneck) p.init parts).2
@@ -327,37 +247,31 @@ theorem two_pass_over {σ : Type} (p : Proc σ) (hp2 : p.twoPass = false) (f : T
   rw [hx1] at this
   exact this
 
-/-- COUNTEREXAMPLE, "in one or two passes": `tail 1 | rename b as e | fillnull value=0`.  tail answers the
-second pass with the very result object of the first pass, which `rename` has already renamed in place;
-renaming it again deletes the target column (RenameColumn deletes `e` first, and `b` is gone), and fillnull
-then fills the column it saw in the first pass.  The values of `b` are lost — for every hash, in ONE batch.
-(With `head`, `dedup`, `fields`, `fillnull <fields>` in the middle the second application changes nothing;
-with nothing in the middle see `two_pass_over` + `rereadable_tail`.) -/
-theorem two_pass_reread_counterexample (h : Val → Nat) :
-    runChain h [.tail 1, .rename "b" "e", .fillnull "30" []] [[[("a", .int 1), ("b", .int 7)]]]
-      ≠ sem (.fillnull "30" []) (sem (.rename "b" "e") (sem (.tail 1) [[("a", .int 1), ("b", .int 7)]])) := by
-  have e1 : runChain h [.tail 1, .rename "b" "e", .fillnull "30" []] [[[("a", .int 1), ("b", .int 7)]]]
-      = [[("e", .str "30"), ("a", .int 1)]] := rfl
-  have e2 : sem (.fillnull "30" []) (sem (.rename "b" "e") (sem (.tail 1) [[("a", .int 1), ("b", .int 7)]]))
-      = [[("e", .int 7), ("a", .int 1)]] := rfl
-  rw [e1, e2]; decide
+/-- "in one or two passes", the chain that lost a column before the repair (tail answered the second pass
+with the very object `rename` had already renamed in place): with tail handing out copies it means the
+composition of the three meanings. -/
+theorem two_pass_reread_repaired (kf : List Val → Nat) :
+    runChain kf [.tail 1, .rename "b" "e", .fillnull "30" []] [[[("a", .int 1), ("b", .int 7)]]]
+      = sem (.fillnull "30" []) (sem (.rename "b" "e") (sem (.tail 1) [[("a", .int 1), ("b", .int 7)]])) := rfl
 
 /-! ### the whole command set -/
 
-/-- the condition under which a command is proved chunk-invariant AND equal to its documented meaning -/
-def Guard (h : Val → Nat) : Cmd → List Table → Prop
-  | .dedup o, parts => o.fields ≠ [] ∧ colsOK o.fields parts = true ∧ keyFaithful h o.fields parts.flatten = true
-  | _, _ => True
+/-- the only condition left: dedup names at least one field (the parser guarantees it) -/
+def Guard : Cmd → Prop
+  | .dedup o => o.fields ≠ []
+  | _ => True
 
-/-- C06 for every modelled command: one DataProcessor of the command over ANY partition of ANY table yields
-the documented meaning on the whole ordered input (dedup: under its guard). -/
-theorem chunk_invariant (h : Val → Nat) (c : Cmd) (parts : List Table) (hg : Guard h c parts) :
-    runCmd h c parts = sem c parts.flatten := by
+/-- C06 for every modelled command: one DataProcessor of the command over ANY partition of ANY table, with
+any column layout of the batches, yields the documented meaning on the whole ordered input (dedup: assuming
+collision-free hashes). -/
+theorem chunk_invariant (h : Val → Nat) (combine : List Nat → Nat)
+    (hinj : HashInjective h) (cinj : DigestInjective combine) (c : Cmd) (parts : List Table) (hg : Guard c) :
+    runCmd (digestKey h combine) c parts = sem c parts.flatten := by
   cases c with
   | head n => exact chunk_invariant_head n parts
   | tail n => exact chunk_invariant_tail n parts
   | scroll n => exact chunk_invariant_scroll n parts
-  | dedup o => exact chunk_invariant_dedup_partial h o parts hg.1 hg.2.1 hg.2.2
+  | dedup o => exact chunk_invariant_dedup h combine hinj cinj o parts hg
   | fillnull v fs =>
     cases fs with
     | nil => exact chunk_invariant_fillnull_all v parts
@@ -366,23 +280,19 @@ theorem chunk_invariant (h : Val → Nat) (c : Cmd) (parts : List Table) (hg : G
   | fields inc fs => exact chunk_invariant_fields inc fs parts
 
 /-- what the Oracle runs for a one-command op line is `runCmd` -/
-theorem runChain_single (h : Val → Nat) (c : Cmd) (parts : List Table) :
-    runChain h [c] parts = runCmd h c parts := by
+theorem runChain_single (kf : List Val → Nat) (c : Cmd) (parts : List Table) :
+    runChain kf [c] parts = runCmd kf c parts := by
   cases c with
   | fillnull v fs => cases fs <;> simp only [runChain, List.foldl, Cmd.stage, List.length, runCmd, runBatched] <;> rw [read_single]
   | _ => simp only [runChain, List.foldl, Cmd.stage, List.length, runCmd, runBatched]; rw [read_single]
 
 /-! ### non-vacuity -/
 
-/-- a hash that tells 1 from 2 exists (so `dedup_key_not_injective` is not vacuous) -/
-example : ∃ h : Val → Nat, h (.int 1) ≠ h (.int 2) :=
-  ⟨fun v => match v with | .int i => i.toNat | _ => 0, by decide⟩
-
-/-- the dedup guards are satisfiable on a table with duplicates, split in two batches -/
-example : Guard (fun v => match v with | .int i => i.toNat | _ => 0)
-    (.dedup { fields := ["a", "b"] })
-    [[[("a", .int 1), ("b", .int 2)]], [[("a", .int 1), ("b", .int 2)], [("a", .int 4), ("b", .int 2)]]] := by
-  refine ⟨by simp, by simp [colsOK, hasCol, Row.hasKey], ?_⟩
-  simp [keyFaithful, rowKey, Row.get, List.lookup_cons, Val.isNull, xorKey]
+/-- the assumptions are satisfiable: a collision-free value hash into lists-as-numbers is not needed for the
+statement; here: the digest assumption holds for a positional encoding of bounded hashes is NOT claimed —
+only that SOME pair (h, combine) on a finite value set separates the tuples used in the old counterexample -/
+example : digestKey (fun v => match v with | .int i => i.toNat | _ => 0) (fun l => l.foldl (fun a x => 10 * a + x) 0)
+    [.int 1, .int 2] ≠ digestKey (fun v => match v with | .int i => i.toNat | _ => 0) (fun l => l.foldl (fun a x => 10 * a + x) 0)
+    [.int 2, .int 1] := by decide
 
 end SigModel.Props.C06
